@@ -639,7 +639,8 @@ def cov_datasets(nmax, lmax):
     sequences"""
     indiv = []
     for ln in range(1, lmax + 1):
-        for vals in itertools.product((1.0, 2.0), repeat=ln):
+        # nan: a covariate that was not recorded on that record (the baseline is the value of the FIRST record all the same)
+        for vals in itertools.product((1.0, 2.0, float("nan")), repeat=ln):
             indiv.append(vals)
     for n in range(1, nmax + 1):
         yield from itertools.product(indiv, repeat=n)
@@ -660,9 +661,12 @@ def check_cov(ds):
     # WGT: constant; TVC: enumerated
     model, df0 = _build_from_recs("base", recs)
     cols = R.columns("base")
+    has_nan = any(x != x for v in ds for x in v)
     for name, fn, w in (
         ("list_time_varying_covariates", pm.list_time_varying_covariates, R.ref_time_varying(recs, ["WGT", "TVC"])),
     ):
+        if has_nan:
+            continue  # whether a missing value makes a covariate "time varying" is not documented
         ok, got = call(iss, name, fn, model)
         if ok:
             iss.compared += 1
